@@ -83,7 +83,7 @@ def generate(seed, tier, cfg):
             ops.append({"k": "force_new"})
     if k.random() < 0.02:
         # a boundary: a long piece with more sections than the alphabet has letters (segment ids)
-        nsec = k.choice((26, 27, 28, 30))
+        nsec = k.choice((26, 27, 28, 30, 52, 64))  # (52 and 64 repeated strains: paths of more than 100 segment visits)
         L = 4
         notes = [{"id": "p1n%d" % (m + 1), "kind": "note", "t": m * L, "e": (m + 1) * L, "voice": 1, "staff": 1, "sym": {"type": "whole", "dots": 0}, "m": m, "g": None, "step": "CDEFGAB"[m % 7], "alter": None, "octave": 3 + m % 3} for m in range(nsec)]
         p = {
